@@ -277,6 +277,7 @@ class Ctx:
             unproved_functions=self.unproved,
             known_findings_hit=self.known_hit,
             explanation=self.explanation or "see DESIGN.md",
+            notes=self.notes,
             samples=samples or ["(none)"],
         )
         if self.bounded_parts:
